@@ -164,4 +164,15 @@ def inline_new_helpers(crate, fns):
                     changed = True
         if not changed:
             break
+    # a helper whose every call site was inlined no longer exists as far as the rules are concerned
+    still_called = set()
+    for f in fns:
+        if f.get("mir"):
+            for b in f["mir"]["blocks"]:
+                t = b["term"]
+                if t["k"] == "call":
+                    still_called.add(t["callee"].get("resolved") or t["callee"].get("path"))
+    gone = [hp for hp in done if hp not in still_called]
+    if gone:
+        fns[:] = [f for f in fns if f["path"] not in gone]
     return done
